@@ -287,7 +287,8 @@ SPECS["C15"] = dict(
                 files={"harness/limiter/zz_verif_c15_test.go": "internal/limiter/zz_verif_c15_test.go"},
                 params={"quick": {"MAXLEN": 3}, "thorough": {"MAXLEN": 4}}, budget={"quick": 90, "thorough": 600}),
            router_part("seams", "TestVerifC15Seams", ["zz_verif_c15_test.go", "zz_verif_c03_test.go"],
-                       params={"quick": {"DEPTH": 4}, "thorough": {"DEPTH": 6}})],
+                       params={"quick": {"DEPTH": 4}, "thorough": {"DEPTH": 6}}),
+           router_part("quic", "TestVerifC15Quic", ["zz_verif_c15quic_test.go", "zz_verif_c03_test.go"], shards=1)],
 )
 
 
